@@ -27,6 +27,8 @@ Method(kind) ==
     [] kind = "private" -> N("func", "_hidden", {}, << Param("self"), Res >>)
     [] kind = "propsetter" -> N("func", "rwprop", {"property", "setter"}, << Param("self"), Res >>)      \* property with a setter
     [] kind = "overload" -> N("func", "ovl", {"overload"}, << Param("self"), Param("a"), Res >>)         \* @overload group + implementation
+    [] kind = "overload-static" -> N("func", "ovls", {"overload", "static"}, << Param("a"), Res >>)       \* overloaded @staticmethod: the implementation is decorated too
+    [] kind = "overload-class" -> N("func", "ovlc", {"overload", "classmethod"}, << Param("cls"), Param("a"), Res >>)
 Ctor == N("func", "__init__", {"ctor"}, << Param("self"), Param("x"), N("attr", "ia", {}, <<>>), N("attr", "_ib", {}, <<>>) >>)
 ClassAttr == N("attr", "ca", {"static"}, <<>>)
 EnumN(name, n) == N("enum", name, {}, [ j \in 1..n |-> N("inst", IF j = 1 THEN "AA" ELSE "BB", {}, <<>>) ])
@@ -47,13 +49,14 @@ ClassN(name, ctor, cattr, mkinds, inner, sup) ==
 MethodSeqs(tier) ==
   { <<>> } \cup { << Method(k) >> : k \in {"inst", "static", "classmethod", "property", "private"} }
   \cup { << Method("inst"), Method("static") >>, << Method("property"), Method("classmethod"), Method("private") >>,
-         << Method("propsetter") >>, << Method("overload") >>, << Method("inst"), Method("overload"), Method("propsetter") >> }
+         << Method("propsetter") >>, << Method("overload") >>, << Method("inst"), Method("overload"), Method("propsetter") >>,
+         << Method("overload-static") >>, << Method("overload-class"), Method("inst") >> }
 Classes(tier) ==
   { ClassN(nm, ct, ca, ms, inn, sup) :
       nm \in {"Cls", "_PrivCls"}, ct \in BOOLEAN, ca \in BOOLEAN, ms \in MethodSeqs(tier),
       inn \in (IF tier = "quick" THEN {"none", "class2", "enum"} ELSE InnerKinds), sup \in (IF tier = "quick" THEN {"none", "two", "aliased"} ELSE Supers) }
 Funcs == { N("func", "fun", {}, << Param("a"), Param("b"), Res >>), N("func", "_pfun", {}, << Param("a") >>), N("func", "noargs", {}, <<>>),
-           N("func", "movl", {"overload"}, << Param("a"), Res >>) }
+           N("func", "movl", {"overload"}, << Param("a"), Res >>), N("func", "mdovl", {"overload", "deco"}, << Param("a"), Res >>) }
 Enums == { EnumN("Col", 2), EnumN("Empty", 0), EnumN("_PCol", 2) }
 
 Modules(tier) ==
@@ -114,7 +117,7 @@ RECURSIVE Inventory(_, _, _)
 \* Scenarios arrive through JSON here, where the flag sets are sequences.
 Inventory(n, oid, cid) ==
   LET id == IF n.k = "attr" /\ cid # "" THEN cid \o "/" \o n.name ELSE oid \o "/" \o n.name
-      self == { [kind |-> n.k, id |-> id, flags |-> SeqToSet(n.flags) \ {"ctor"}] }
+      self == { [kind |-> n.k, id |-> id, flags |-> SeqToSet(n.flags) \ {"ctor", "deco"}] }
   IN self \cup UNION { Inventory(n.ch[j], id, IF n.k = "func" /\ n.name = "__init__" THEN oid ELSE "") : j \in 1..Len(n.ch) }
 ExpectedInventory(m, mid) == UNION { Inventory(m.ch[j], mid, "") : j \in 1..Len(m.ch) }
 
